@@ -14,6 +14,15 @@
 (*             forwarded to the helper, which unpickles the worker with ITS target /         *)
 (*             args / kwargs patched in and runs the handshake (StartForward)               *)
 (*   call    : enqueue + next_result on a worker (WCall);  wait : close + wait (WWait)      *)
+(*   busy    : enqueue a job that is ONE long blocking call (WBusy): the worker does not see  *)
+(*             a termination request until it returns - it has to be waited out and killed    *)
+(* Delete has two paths.  The helper's clean-up terminates its workers one by one and spends   *)
+(* 1 s on every busy one; the server waits 5 s for the helper (`Patience` busy workers fit in)  *)
+(* and then terminates it (SIGTERM): the helper's SIGTERM handler kills the workers it has not  *)
+(* reached yet (DeleteForced).  Mutant switch HandlerKills = FALSE (TLC must reject it): the     *)
+(* handler kills nothing - the workers after the cut outlive the deleted context.                *)
+(* Profile = "manybusy" scripts the history create, MaxW x start, MaxW x busy, delete (then free) *)
+(* so that the forced path is reached with the real Patience (4) and 7 workers.                  *)
 (* The abstract side (dict, aw) is the dictionary model of the property; `want` is the      *)
 (* reply the dictionary model gives to the current request.  Refinement invariants compare  *)
 (* the two after every request; with Hist = TRUE the history is kept and the record          *)
@@ -26,12 +35,15 @@ CONSTANTS Ids,          \* context ids used by the client (subset of 1..3)
           MaxLen,       \* length of the request history
           MaxW,         \* number of workers the client may start
           Hist,         \* keep the history (path dump / record operators)
-          PopOnDelete, DupCheck
+          PopOnDelete, DupCheck,
+          Patience,     \* busy workers the helper can wait out before the server gives up on it
+          HandlerKills, \* the helper's SIGTERM handler kills the workers of the context
+          Profile       \* "free" | "manybusy"
 
 VARIABLES n, phase, req, rep, want, cur,
           table,        \* id -> helper index (0 = not registered)       [server: self.contexts]
           hp, nh,       \* helper processes ever built: index -> [id, tok, st]
-          wk, nw,       \* workers: index -> [h, st, tok]   st: "none" "alive" "dead" "done"
+          wk, nw,       \* workers: index -> [h, st, tok]   st: "none" "alive" "busy" "dead" "done"
           gen,          \* id -> number of create requests so far (tokens are 10*id + gen: unique)
           dict, aw,     \* the dictionary model: id -> tok in force; worker -> [tok, live]
           srv,          \* "up" | "crashed"
@@ -58,20 +70,30 @@ Requests ==
    \cup {[op |-> "delete", id |-> i, tok |-> 0, w |-> 0, x |-> 0, k |-> Known(i)] : i \in Ids}
    \cup {[op |-> "start", id |-> i, tok |-> 0, w |-> nw + 1, x |-> 0, k |-> Known(i)] : i \in {j \in Ids : nw < MaxW}}
    \cup {[op |-> o, id |-> 0, tok |-> 0, w |-> w, x |-> w + n, k |-> "-"] : o \in {"call", "wait"}, w \in {v \in Workers : wk[v].st \in {"alive", "dead"}}}
+   \cup {[op |-> "busy", id |-> 0, tok |-> 0, w |-> w, x |-> 0, k |-> "-"] : w \in {v \in Workers : wk[v].st = "alive"}}
+Lowest(S) == CHOOSE w \in S : \A v \in S : w <= v
+Idlers == {v \in Workers : wk[v].st = "alive"}
+Scripted ==
+   IF n = 0 THEN {[op |-> "create", id |-> 1, tok |-> 11, w |-> 0, x |-> 0, k |-> "F"]}
+   ELSE IF table[1] # 0 /\ gen[1] = 1 /\ nw < MaxW THEN {[op |-> "start", id |-> 1, tok |-> 0, w |-> nw + 1, x |-> 0, k |-> "T"]}
+   ELSE IF table[1] # 0 /\ gen[1] = 1 /\ Idlers # {} THEN {[op |-> "busy", id |-> 0, tok |-> 0, w |-> Lowest(Idlers), x |-> 0, k |-> "-"]}
+   ELSE IF table[1] # 0 /\ gen[1] = 1 THEN {[op |-> "delete", id |-> 1, tok |-> 0, w |-> 0, x |-> 0, k |-> "T"]}
+   ELSE Requests
 AbstractReply(q) ==
    CASE q.op = "create" -> IF dict[q.id] = NoTok THEN "ok" ELSE "ValueError"
      [] q.op = "delete" -> "T"
      [] q.op = "start"  -> IF dict[q.id] = NoTok THEN "nostart" ELSE "started"
      [] q.op = "call"   -> IF aw[q.w].live THEN Val(CtxTarget(q.x, aw[q.w].tok)) ELSE "dead"
+     [] q.op = "busy"   -> "queued"
      [] OTHER           -> "T"
 FirstPhase(q) == CASE q.op = "create" -> "c_unpickle" [] q.op = "delete" -> "d_pop" [] q.op = "start" -> "s_lookup"
-                   [] q.op = "call" -> "w_call" [] OTHER -> "w_wait"
+                   [] q.op = "call" -> "w_call" [] q.op = "busy" -> "w_busy" [] OTHER -> "w_wait"
 Issue == /\ phase = "idle" /\ n < MaxLen /\ srv = "up"
-         /\ \E q \in Requests : req' = q /\ want' = AbstractReply(q) /\ phase' = FirstPhase(q)
+         /\ \E q \in (IF Profile = "manybusy" THEN Scripted ELSE Requests) : req' = q /\ want' = AbstractReply(q) /\ phase' = FirstPhase(q)
          /\ UNCHANGED <<n, rep, cur, table, hp, nh, wk, nw, gen, dict, aw, srv, hist, reps, lives>>
 
 \* the request completes with reply v; the dictionary model takes its step; history kept if Hist
-AliveSeq(wkn) == SelectSeq([k \in Workers |-> k], LAMBDA k : wkn[k].st = "alive")
+AliveSeq(wkn) == SelectSeq([k \in Workers |-> k], LAMBDA k : wkn[k].st \in {"alive", "busy"})
 Reply(v, wkn) ==
    /\ rep' = v /\ phase' = "idle" /\ n' = n + 1
    /\ dict' = IF req.op = "create" /\ dict[req.id] = NoTok THEN [dict EXCEPT ![req.id] = req.tok]
@@ -105,12 +127,27 @@ DeletePop ==
    /\ IF table[req.id] = 0 THEN Reply("T", wk)
       ELSE phase' = "d_wait" /\ UNCHANGED <<n, rep, dict, aw, hist, reps, lives>>
    /\ UNCHANGED <<req, want, hp, nh, wk, nw, gen, srv>>
-EndWorkersOf(h) == [w \in Workers |-> IF wk[w].h = h /\ wk[w].st = "alive" THEN [wk[w] EXCEPT !.st = "dead"] ELSE wk[w]]
-DeleteWait ==          \* the helper is released (or terminated after 5 s); its clean-up terminates its workers
-   /\ phase = "d_wait"
+Running(w) == wk[w].st \in {"alive", "busy"}
+EndWorkersOf(h) == [w \in Workers |-> IF wk[w].h = h /\ Running(w) THEN [wk[w] EXCEPT !.st = "dead"] ELSE wk[w]]
+BusyOf(h) == {w \in Workers : wk[w].h = h /\ wk[w].st = "busy"}
+Forced(h) == Cardinality(BusyOf(h)) > Patience
+\* the busy worker the helper is waiting for when the server's patience ends
+CutW(h) == CHOOSE w \in BusyOf(h) : Cardinality({v \in BusyOf(h) : v < w}) = Patience
+DeleteWait ==          \* the helper is released and finishes its clean-up within the server's 5 s: every worker terminated
+   /\ phase = "d_wait" /\ ~Forced(cur)
    /\ hp' = [hp EXCEPT ![cur].st = "dead"]
    /\ wk' = EndWorkersOf(cur)
    /\ Reply("T", EndWorkersOf(cur))
+   /\ UNCHANGED <<req, want, cur, table, nh, nw, gen, srv>>
+\* the clean-up overruns: the workers before the cut are terminated by the clean-up, then the server SIGTERMs the
+\* helper, whose handler kills the rest
+AfterForced(h) == [w \in Workers |-> IF wk[w].h = h /\ Running(w) /\ (HandlerKills \/ w < CutW(h))
+                                      THEN [wk[w] EXCEPT !.st = "dead"] ELSE wk[w]]
+DeleteForced ==
+   /\ phase = "d_wait" /\ Forced(cur)
+   /\ hp' = [hp EXCEPT ![cur].st = "dead"]
+   /\ wk' = AfterForced(cur)
+   /\ Reply("T", AfterForced(cur))
    /\ UNCHANGED <<req, want, cur, table, nh, nw, gen, srv>>
 
 StartLookup ==
@@ -133,6 +170,11 @@ WCall ==
    /\ phase = "w_call"
    /\ Reply(IF wk[req.w].st = "alive" THEN Val(CtxTarget(req.x, wk[req.w].tok)) ELSE "dead", wk)
    /\ UNCHANGED <<req, want, cur, table, hp, nh, wk, nw, gen, srv>>
+WBusy ==               \* the job is queued and the worker enters its blocking call
+   /\ phase = "w_busy"
+   /\ wk' = [wk EXCEPT ![req.w].st = "busy"]
+   /\ Reply("queued", [wk EXCEPT ![req.w].st = "busy"])
+   /\ UNCHANGED <<req, want, cur, table, hp, nh, nw, gen, srv>>
 WWait ==
    /\ phase = "w_wait"
    /\ wk' = [wk EXCEPT ![req.w].st = "done"]
@@ -145,12 +187,12 @@ Collect == /\ \E h \in 1..nh : /\ hp[h].st = "alive" /\ \A i \in 1..3 : table[i]
                               /\ hp' = [hp EXCEPT ![h].st = "dead"]
            /\ UNCHANGED <<n, phase, req, rep, want, cur, table, nh, wk, nw, gen, dict, aw, srv, hist, reps, lives>>
 
-Next == Issue \/ CreateUnpickle \/ CreateCheck \/ DeletePop \/ DeleteWait \/ StartLookup \/ StartForward \/ WCall \/ WWait \/ Collect
+Next == Issue \/ CreateUnpickle \/ CreateCheck \/ DeletePop \/ DeleteWait \/ DeleteForced \/ StartLookup \/ StartForward \/ WCall \/ WBusy \/ WWait \/ Collect
 Spec == Init /\ [][Next]_vars /\ WF_vars(Next)
 
 -----------------------------------------------------------------------------
 Idle == phase = "idle"
-TypeOK == /\ phase \in {"idle", "c_unpickle", "c_check", "d_pop", "d_wait", "s_lookup", "s_forward", "w_call", "w_wait"}
+TypeOK == /\ phase \in {"idle", "c_unpickle", "c_check", "d_pop", "d_wait", "s_lookup", "s_forward", "w_call", "w_busy", "w_wait"}
           /\ n \in 0..MaxLen /\ nh \in 0..MaxLen /\ nw \in 0..MaxW /\ srv \in {"up", "crashed"}
           /\ \A i \in 1..3 : table[i] \in 0..nh
 \* refinement: the implementation's table, seen through the helpers' tokens, IS the dictionary
@@ -158,7 +200,7 @@ Ref_Table == Idle => [i \in 1..3 |-> IF table[i] = 0 THEN NoTok ELSE hp[table[i]
 \* every reply is the dictionary model's reply
 Ref_Reply == (Idle /\ n > 0) => rep = want
 \* workers: alive exactly when the model says so, and they carry the token of the registration in force at their start
-Ref_Workers == Idle => \A w \in Workers : /\ aw[w].live <=> wk[w].st = "alive"
+Ref_Workers == Idle => \A w \in Workers : /\ aw[w].live <=> wk[w].st \in {"alive", "busy"}
                                           /\ aw[w].live => aw[w].tok = wk[w].tok
 Ref_ServerUp == srv = "up"
 \* a registered context always has a live helper
@@ -182,6 +224,8 @@ W_NoReuse       == ~(phase = "c_check" /\ table[req.id] = 0 /\ gen[req.id] > 1)
 W_NoUnknownStart == ~(phase = "s_lookup" /\ table[req.id] = 0)
 W_NoUnknownDelete == ~(phase = "d_pop" /\ table[req.id] = 0)
 W_NoDeleteWithWorkers == ~(phase = "d_wait" /\ \E w \in Workers : wk[w].h = cur /\ wk[w].st = "alive")
+W_NoForcedDelete == ~(phase = "d_wait" /\ Forced(cur))
+W_NoBusyRegular  == ~(phase = "d_wait" /\ ~Forced(cur) /\ BusyOf(cur) # {})
 W_NoCallAfterDup == ~(phase = "w_call" /\ wk[req.w].st = "alive" /\ gen[hp[wk[req.w].h].id] > 1 /\ hp[wk[req.w].h].tok % 10 = 1)
 W_NoTwoContexts  == ~(Cardinality({i \in 1..3 : table[i] # 0}) >= 2)
 =============================================================================
